@@ -344,6 +344,8 @@ class Run:
                 self.nodes[op["node"]] = None
             elif kind == "jobdone":
                 self.jobs.pop(op["job"]).set_result(None)
+            elif kind == "jobfail":
+                self.jobs.pop(op["job"]).set_exception(ValueError("mapped coroutine failed"))
             elif kind in ("counts", "links", "advance", "settle"):
                 pass
             else:
